@@ -44,9 +44,12 @@ D == /\ Is("D") /\ deliv' = [deliv EXCEPT ![e.side] = Fold(@, e.fr, 1)] /\ bad' 
 
 SkipSet(x) == {<<e.skip[x][i][1], e.skip[x][i][2]>> : i \in 1 .. Len(e.skip[x])}
 Missing(x) == {s \in DOMAIN sent[x] : s \notin SkipSet(x) /\ At(deliv[x], s, 0) < sent[x][s]}
+AllQuiet == \A x \in Sides : e.quiet[x]
 End == /\ Is("End")
-       /\ bad' = bad \cup UNION {IF e.quiet[x] /\ Missing(x) # {} THEN {"ControlFrameNeverDelivered"} ELSE {} : x \in Sides}
-       /\ (\A x \in Sides : (e.quiet[x] /\ Missing(x) # {}) => PrintT(<<"MISSING", x, Missing(x)>>))
+       \* judged when both sides are quiet: while the peer still has packets in flight, what matters
+       \* to it (a stream it is about to finish) can still change
+       /\ bad' = bad \cup UNION {IF AllQuiet /\ Missing(x) # {} THEN {"ControlFrameNeverDelivered"} ELSE {} : x \in Sides}
+       /\ (\A x \in Sides : (AllQuiet /\ Missing(x) # {}) => PrintT(<<"MISSING", x, Missing(x)>>))
        /\ l' = l + 1 /\ UNCHANGED <<sent, deliv, cur>>
 
 TNext == Reset \/ S \/ D \/ End
